@@ -47,6 +47,7 @@ type State struct {
 	Backends map[string]map[string]*Server // backend -> server name -> state
 	Certs    map[string]string             // certificate file -> PEM content
 	Loaded   *hapcfg.Config                // configuration as parsed at the last successful reload
+	CrtLists map[string][]hapcfg.CrtListEntry // frontend -> crt-list entries as loaded
 }
 
 // Sim ...
@@ -129,7 +130,7 @@ func (s *Sim) SetFaults(cmd, reload map[int]string) {
 func (s *Sim) Snapshot() *State {
 	s.mu.Lock()
 	defer s.mu.Unlock()
-	out := &State{Backends: map[string]map[string]*Server{}, Certs: map[string]string{}, Loaded: s.state.Loaded}
+	out := &State{Backends: map[string]map[string]*Server{}, Certs: map[string]string{}, Loaded: s.state.Loaded, CrtLists: s.state.CrtLists}
 	for b, m := range s.state.Backends {
 		mm := map[string]*Server{}
 		for n, sv := range m {
@@ -195,6 +196,17 @@ func LoadState(cfgDir string) (*State, []string) {
 			}
 		}
 		st.Backends[b.Name] = m
+	}
+	st.CrtLists = map[string][]hapcfg.CrtListEntry{}
+	for fe, lists := range cfg.BindCrtLists() {
+		for _, lf := range lists {
+			entries, err := cfg.CrtList(lf)
+			if err != nil {
+				errs = append(errs, fmt.Sprintf("crt-list %s: %v", lf, err))
+				continue
+			}
+			st.CrtLists[fe] = append(st.CrtLists[fe], entries...)
+		}
 	}
 	for _, f := range cfg.CertFiles() {
 		if data, err := os.ReadFile(f); err == nil {
